@@ -27,6 +27,11 @@ def cases(tier, rng, dist):
         lo = 1; hi = 7 if spec == "liptak" else 8
         p = [Fraction(rng.randint(lo, hi), 8) for _ in range(n)]
         kind = rng.choice(["raise", "relabel", "transform", "dtype"])
+        if rng.random() < 0.3:
+            # the library's inverse-root-n weighted combiner with unequal sizes; square matrices (B == n) included on purpose
+            spec = ["invn", [rng.choice([1, 4, 9, 16, 25, 100]) for _ in range(n)]]
+            if rng.random() < 0.6:
+                B = n; m = gen_matrix(rng, B, n, rng.randint(1, 4))
         c = {"f": "rel", "kind": kind, "distr": [[str(v) for v in r] for r in m], "p": [str(x) for x in p], "comb": spec,
              "plus1": rng.random() < 0.5}
         if kind == "raise":
@@ -34,7 +39,7 @@ def cases(tier, rng, dist):
             c["p2"] = [str(x) for x in q]
         elif kind == "relabel":
             perm = list(range(n)); rng.shuffle(perm); c["perm"] = perm
-            if spec not in ("fisher", "liptak", "tippett", "negmax") and spec != COMBS[3]:
+            if spec not in ("fisher", "liptak", "tippett", "negmax") and spec != COMBS[3] and spec[0] != "invn":
                 c["comb"] = "tippett"
         elif kind == "transform":
             c["col"] = rng.randrange(n); c["tf"] = rng.choice(["affine", "cube", "exp", "half"])
@@ -68,6 +73,13 @@ def call(p, m, spec, plus1, dtype=float):
     d = interned(np.array([[float(v) for v in r] for r in m]).astype(dtype))
     pv = interned(np.array([float(x) for x in p]))
     return list(guarded(lambda: float(NPC.npc(pv, d, make_comb(spec), plus1=plus1))))
+
+
+def comb2(c):
+    """the combining function of the related call: sizes travel with their tests under relabelling"""
+    if c["kind"] == "relabel" and isinstance(c["comb"], list) and c["comb"][0] == "invn":
+        return ["invn", [c["comb"][1][j] for j in c["perm"]]]
+    return c["comb"]
 
 
 def second(c):
@@ -109,7 +121,7 @@ def run(c):
     m = [[Fraction(v) for v in r] for r in c["distr"]]
     p = [Fraction(x) for x in c["p"]]
     p2, m2, dt = second(c)
-    return {"r1": call(p, m, c["comb"], c["plus1"]), "r2": call(p2, m2, c["comb"], c["plus1"], dt)}
+    return {"r1": call(p, m, c["comb"], c["plus1"]), "r2": call(p2, m2, comb2(c), c["plus1"], dt)}
 
 
 def oracle(c, o):
@@ -147,7 +159,7 @@ def oracle(c, o):
     m = [[Fraction(v) for v in r] for r in c["distr"]]; p = [Fraction(x) for x in c["p"]]
     e1 = exact_npc(p, m, c["comb"], c["plus1"])
     p2, m2, _ = second(c)
-    e2 = exact_npc(p2, m2, c["comb"], c["plus1"])
+    e2 = exact_npc(p2, m2, comb2(c), c["plus1"])
     for (e, r, pp) in ((e1, r1, p), (e2, r2, p2)):
         if e[0] == "exc" and r[0] == "ok":
             return {"why": f"npc accepted the combining function {c['comb']} (increasing in one of its arguments at p={[str(x) for x in pp]}) and returned {r[1]}; the monotonicity guard must raise ValueError",
@@ -199,14 +211,15 @@ def extra_terms(c, o):
         m = [[Fraction(v) for v in r] for r in c["distr"]]; p = [Fraction(x) for x in c["p"]]
         p2, m2, _ = second(c)
         for (pp, mm, r) in ((p, m, o["r1"]), (p2, m2, o["r2"])):
-            e = exact_npc(pp, mm, c["comb"], c["plus1"])
+            cb = c["comb"] if mm is m else comb2(c)
+            e = exact_npc(pp, mm, cb, c["plus1"])
             if e[0] == "ok" and e[2]:
                 SKIPPED[0] += 1; continue
             if c.get("tf") == "exp" and mm is m2:
                 continue  # irrational column: the model is compared on the rational inputs only
             tab = e[3] if e[0] == "ok" else {}
             impl = cres(("ok", Fraction(r[1])) if r[0] == "ok" else r, cq)
-            out.append(f"NpcCase {clist(pp, cq)} {qmat(mm)} {comb_coq(c['comb'], tab)} {cbool(c['plus1'])} {impl}")
+            out.append(f"NpcCase {clist(pp, cq)} {qmat(mm)} {comb_coq(cb, tab)} {cbool(c['plus1'])} {impl}")
     return out
 
 
